@@ -155,6 +155,17 @@ fn run_driver(bin: &Path, dir: &Path, proj: &Project, variant: usize) -> Result<
     let out_file = dir.join(format!("xproc-{}.lua", variant));
     let so = dir.join(format!("xproc-{}.stdout", variant));
     let se = dir.join(format!("xproc-{}.stderr", variant));
+    // what an earlier compilation left at the output path must not matter: variant 1 finds a longer stale file there,
+    // variant 2 a symbolic link to such a file
+    let stale: Vec<u8> = b"-- output of an earlier, longer compilation\nlocal x = 1\n".iter().cycle().take(120_000).copied().collect();
+    let _ = std::fs::remove_file(&out_file);
+    if variant == 1 {
+        let _ = std::fs::write(&out_file, &stale);
+    } else if variant == 2 {
+        let target = dir.join("xproc-2-target.lua");
+        let _ = std::fs::write(&target, &stale);
+        let _ = std::os::unix::fs::symlink(&target, &out_file);
+    }
     let mut cmd = Command::new(bin);
     cmd.arg("-o").arg(&out_file);
     if !proj.std {
@@ -210,9 +221,11 @@ fn run_driver(bin: &Path, dir: &Path, proj: &Project, variant: usize) -> Result<
         code: status.code(),
         stdout: std::fs::read(&so).unwrap_or_default(),
         stderr: std::fs::read(&se).unwrap_or_default(),
-        file: std::fs::read(&out_file).ok(),
+        // a stale file that was left untouched (the driver writes nothing when compilation fails) counts as "no output"
+        file: std::fs::read(&out_file).ok().filter(|b| *b != stale),
     };
     let _ = std::fs::remove_file(&out_file);
+    let _ = std::fs::remove_file(dir.join("xproc-2-target.lua"));
     Ok(r)
 }
 
@@ -752,7 +765,7 @@ impl Check for C16 {
              <= 1.2e-7 for rejected ones (N=24), i.e. > 99 % per case for every class; an effect that shows once in 128 compiles is \
              seen with 17 % per rejected case during the search and > 99.9 % on a stored case. Cross-process (when the driver binary \
              of the tree is present and neither it nor this executable is older than the sources): {} runs of `sylt -o FILE main.sy` \
-             in fresh processes, the last with a scrubbed, unusual environment (HOME, LANG, LC_ALL, TZ, TERM, COLUMNS, TMPDIR, USER, \
+             in fresh processes - the first onto a new file, the second onto a longer stale output file left by an earlier compilation, the last onto a symbolic link to such a file and with a scrubbed, unusual environment (HOME, LANG, LC_ALL, TZ, TERM, COLUMNS, TMPDIR, USER, \
              extra variables) and another working directory: exit status, stdout, stderr and output-file bytes must be identical, \
              and equal to the in-process result (Lua bytes / rendered errors). NO_COLOR and RUST_BACKTRACE are fixed. non-trivial = \
              >= 2 independent errors (planted or reported) or >= 2 blobs/enums with >= 3 members in the user files; distinct by hash \
